@@ -94,6 +94,9 @@ pub fn lib_key(k: &KeySpec) -> Result<HMACKey, String> {
 /// "within documented limits") refused it, or the model value has no public constructor.
 pub fn to_lib(a: &RAttr) -> Result<StunAttribute, String> {
     let e = |x: stun_rs::StunError| format!("constructor: {}", x);
+    // values are built through ALL public constructors and conversions of their type, chosen by a cheap function of the
+    // value itself (so that a replay builds the same way): "a message that can be built from the library's types"
+    let route = |n: usize, k: usize| (n.wrapping_mul(2654435761) >> 7) % k;
     Ok(match a {
         RAttr::MappedAddress(x) => MappedAddress::from(sock(x)).into(),
         RAttr::AlternateServer(x) => AlternateServer::from(sock(x)).into(),
@@ -102,41 +105,95 @@ pub fn to_lib(a: &RAttr) -> Result<StunAttribute, String> {
         RAttr::XorMappedAddress(x) => XorMappedAddress::from(sock(x)).into(),
         RAttr::XorPeerAddress(x) => XorPeerAddress::from(sock(x)).into(),
         RAttr::XorRelayedAddress(x) => XorRelayedAddress::from(sock(x)).into(),
-        RAttr::UserName(s) => UserName::new(s).map_err(e)?.into(),
-        RAttr::Realm(s) => Realm::new(s).map_err(e)?.into(),
-        RAttr::Nonce(s) => Nonce::new(s).map_err(e)?.into(),
-        RAttr::Software(s) => Software::new(s.as_str()).map_err(e)?.into(),
+        RAttr::UserName(s) => match route(s.len(), 4) {
+            0 => UserName::new(s),
+            1 => UserName::try_from(s.as_str()),
+            2 => UserName::try_from(s),
+            _ => UserName::try_from(s.clone()),
+        }
+        .map_err(e)?
+        .into(),
+        RAttr::Realm(s) => match route(s.len(), 4) {
+            0 => Realm::new(s),
+            1 => Realm::try_from(s.as_str()),
+            2 => Realm::try_from(s),
+            _ => Realm::try_from(s.clone()),
+        }
+        .map_err(e)?
+        .into(),
+        RAttr::Nonce(s) => match route(s.len(), 4) {
+            0 => Nonce::new(s),
+            1 => Nonce::try_from(s.as_str()),
+            2 => Nonce::try_from(s),
+            _ => Nonce::try_from(s.clone()),
+        }
+        .map_err(e)?
+        .into(),
+        RAttr::Software(s) => match route(s.len(), 2) {
+            0 => Software::new(s.as_str()),
+            _ => Software::try_from(s.as_str()),
+        }
+        .map_err(e)?
+        .into(),
         RAttr::Padding(s) => Padding::new(s.as_str()).map_err(e)?.into(),
         RAttr::ErrorCode { code, reason } => {
             if reason.len() > 509 {
                 return Err("reason beyond documented limit".into());
             }
-            ErrorCode::new(stun_rs::ErrorCode::new(*code, reason).map_err(e)?).into()
+            let ec = stun_rs::ErrorCode::new(*code, reason).map_err(e)?;
+            match route(reason.len() + *code as usize, 2) {
+                0 => ErrorCode::new(ec),
+                _ => ErrorCode::from(ec),
+            }
+            .into()
         }
-        RAttr::UnknownAttributes(v) => UnknownAttributes::from(v.as_slice()).into(),
+        RAttr::UnknownAttributes(v) => match route(v.len(), 2) {
+            0 => UnknownAttributes::from(v.as_slice()),
+            _ => {
+                let mut u = UnknownAttributes::default();
+                for t in v {
+                    u.add(*t);
+                }
+                u
+            }
+        }
+        .into(),
         RAttr::UserHash(UserHashSpec::Names { user, realm }) => UserHash::new(user, realm).map_err(e)?.into(),
         RAttr::UserHash(UserHashSpec::Bytes(_)) => return Err("no public constructor from bytes".into()),
         RAttr::PasswordAlgorithm(alg) => PasswordAlgorithm::new(lib_alg(alg)).into(),
-        RAttr::PasswordAlgorithms(list) => {
-            PasswordAlgorithms::from(list.iter().map(|a| PasswordAlgorithm::new(lib_alg(a))).collect::<Vec<_>>()).into()
+        RAttr::PasswordAlgorithms(list) => match route(list.len(), 2) {
+            0 => PasswordAlgorithms::from(list.iter().map(|a| PasswordAlgorithm::new(lib_alg(a))).collect::<Vec<_>>()),
+            _ => {
+                let mut p = PasswordAlgorithms::default();
+                for a in list {
+                    p.add(PasswordAlgorithm::new(lib_alg(a)));
+                }
+                p
+            }
         }
+        .into(),
         RAttr::IceControlled(x) => IceControlled::new(*x).into(),
         RAttr::IceControlling(x) => IceControlling::new(*x).into(),
         RAttr::Priority(x) => Priority::new(*x).into(),
         RAttr::UseCandidate => UseCandidate::default().into(),
         RAttr::ChannelNumber(x) => ChannelNumber::new(*x).into(),
         RAttr::LifeTime(x) => LifeTime::new(*x).into(),
-        RAttr::Data(d) => Data::new(d).into(),
+        RAttr::Data(d) => match route(d.len(), 3) {
+            0 => Data::new(d),
+            1 => Data::from(d.as_slice()),
+            _ => Data::from(d.clone()),
+        }
+        .into(),
         RAttr::RequestedAddressFamily(f) => RequestedAddressFamily::new(family(*f)?).into(),
         RAttr::AdditionalAddressFamily(f) => AdditionalAddressFamily::new(family(*f)?).into(),
-        RAttr::EvenPort(r) => EvenPort::new(*r).into(),
+        RAttr::EvenPort(r) => if *r { EvenPort::new(*r) } else { EvenPort::from(*r) }.into(),
         RAttr::DontFragment => DontFragment::default().into(),
         RAttr::RequestedTransport(p) => match *p {
             17 => RequestedTrasport::new(stun_rs::protocols::UDP).into(),
             0 => RequestedTrasport::new(stun_rs::protocols::ProtocolNumber::default()).into(),
             _ => return Err("protocol number not publicly constructible".into()),
         },
-        RAttr::ReservationToken(t) => ReservationToken::from(*t).into(),
+        RAttr::ReservationToken(t) => if t[0] & 1 == 0 { ReservationToken::from(*t) } else { ReservationToken::from(t) }.into(),
         RAttr::AddressErrorCode { family: f, code, reason } => {
             if reason.len() > 509 {
                 return Err("reason beyond documented limit".into());
@@ -149,7 +206,11 @@ pub fn to_lib(a: &RAttr) -> Result<StunAttribute, String> {
             *data,
         )
         .into(),
-        RAttr::MobilityTicket(d) => MobilityTicket::new(d).into(),
+        RAttr::MobilityTicket(d) => match route(d.len(), 2) {
+            0 => MobilityTicket::new(d),
+            _ => MobilityTicket::from(d.as_slice()),
+        }
+        .into(),
         RAttr::ChangeRequest { ip, port } => {
             let mut f = BitFlags::<ChangeRequestFlags>::empty();
             if *ip {
@@ -195,7 +256,7 @@ pub fn to_lib_msg(m: &RMsg) -> Result<StunMessage, String> {
         other[0] ^= 0x5A;
         b = b.with_transaction_id(TransactionId::from(other));
     }
-    b = b.with_transaction_id(TransactionId::from(m.tid));
+    b = b.with_transaction_id(if m.tid[10] & 1 == 0 { TransactionId::from(m.tid) } else { TransactionId::from(&m.tid) });
     for a in &m.attrs {
         b = b.with_attribute(to_lib(a)?);
     }
